@@ -53,6 +53,14 @@ def plan(tier, seed):
     }
 
 
+
+def w2(tier):
+    """W2: the repository's own tests as a workload, observed through the hooks (vf/pytest_plugin.py)"""
+    tests = ['tests/test_schedules.py', 'tests/test_config.py']
+    if tier != "quick":
+        tests += ['tests/test_halide_ops.py', 'tests/test_x86.py', 'tests/test_neon.py', 'tests/test_cursors.py', 'tests/asplos25', 'tests/test_rvv.py']
+    return {"tests": tests, "monitors": ["C07"], "timeout": 900 if tier == "quick" else 2400}
+
 def shard(ctx):
     from ..templates import any_template
 
